@@ -84,3 +84,11 @@ prop("C06",
                   "asyncio.sleep(d) / asyncio.wait(timeout=d) return within d + J, J = 0.05 s (ASSUMED); the time bound proved is retry_count x (timeout + pause + 2 (poll 0.1 s + J)): the statement's bound is read modulo the polling interval",
                   "the gates are evaluated when the call arrives; a state change between the gate test and the lock acquisition is not decided (concurrency)"],
      explanation="wait_for_response and get proved with loop invariants under a ghost clock (attempt accounting, fresh build per attempt, reply only if delivered, time bound); gates; ping timestamp moves only on a delivered reply; lexical lock domination")
+
+prop("C07",
+     level="proof",
+     ground=[lexical.c07_lexical],
+     assumptions=["rely condition at every suspension point: other consumer tasks may remove the head (clearing the mark) and producers may append; only the unhandled consumer marks -- checked lexically",
+                  "asyncio.Queue is modelled as a list (put_nowait appends, get_nowait removes the first element)",
+                  "NOT decided: the head-of-line bound 'no datagram stays at the head for more than a few polling intervals' (scheduler / fairness)"],
+     explanation="queue representation invariant (ghost marked item), consume / unhandled consume loop contracts with interference at every suspension point, addressed-packet gate with all four address components symbolic")
